@@ -230,7 +230,7 @@ def metric_cases(draw, tier):
     c['z_ion'] = draw(st.sampled_from([-3, -2, -1, 1, 2, 3]))
     c['dimensions'] = draw(st.sampled_from([1, 2, 3]))
     c['temperature'] = draw(st.sampled_from([1.0, 123.0, 300.0, 650.5, 1500.0]))
-    c['k'] = draw(st.sampled_from([0.25, 0.5, 1.0, 1.7, 3.0, 4.0]))
+    c['k'] = draw(st.sampled_from([0.25, 0.5, 1.0, 1.7, 3.0, 4.0, 2.0**-12, 1e-6, 1e-3, 1e4]))  # (also changes of unit: a cell in micrometres / in fm)
     c['s'] = draw(st.sampled_from([0.25, 0.5, 1.0, 2.0, 3.3, 4.0, 1.4142135623730951, 0.3333333333333333]))
     c['extend_at'] = draw(st.integers(0, T))
     c['swap_axes'] = draw(st.sampled_from([False, False, True]))
